@@ -252,9 +252,12 @@ def scenario(inst, V):
             wrap = {"method": lambda f: f, "classmethod": classmethod, "staticmethod": staticmethod, "property": property}[ck]
             if ck == "property":
                 g2 = {"A": A, "_record": _record}
-                exec("def f(self) -> A:\n    'doc of f'\n    return _record(locals())\n", g2)
+                exec("def f(self) -> A:\n    'doc of f'\n    return _record(locals())\n"
+                     "def fs(self, value: A):\n    _record(locals())\n"
+                     "def fd(self):\n    _record(dict(deleted=True))\n", g2)
                 plain = g2["f"]
                 sig = [("self", "PK", 0, None)]
+                wrap = lambda f: property(f, g2["fs"], g2["fd"])
             K = type("K", (), {"fp": wrap(plain), "fd": jt.jaxtyped(typechecker=tc)(wrap(plain))})
             k = K()
             V.check("metadata", type(K.__dict__["fd"]) is type(K.__dict__["fp"]), what="descriptor kind",
@@ -262,6 +265,23 @@ def scenario(inst, V):
             if ck == "property":
                 call_plain, call_dec = (lambda: K.__dict__["fp"].fget(k)), (lambda: K.__dict__["fd"].fget(k))
                 dec = K.__dict__["fd"].fget
+                # setter and deleter go to the original setter / deleter
+                sv = V.arr([V.int("s_set", 0)])
+                for which in ("set", "del"):
+                    outs = []
+                    for attr in ("fp", "fd"):
+                        REC["calls"], REC["got"] = 0, None
+                        try:
+                            if which == "set":
+                                setattr(k, attr, sv)
+                            else:
+                                delattr(k, attr)
+                            outs.append(("OK", REC["calls"], sorted((REC["got"] or {}).keys())))
+                        except (core.PathAbort, core.Unsupported, core.Nondeterminism, core.StopPath):
+                            raise
+                        except Exception as e:  # noqa
+                            outs.append(("EXC:" + type(e).__name__, REC["calls"], None))
+                    V.check("same-outcome", outs[0] == outs[1], what="property " + which, plain=outs[0], decorated=outs[1])
             elif ck == "method":
                 call_plain, call_dec = k.fp, k.fd
                 dec = K.__dict__["fd"]
